@@ -150,6 +150,11 @@ def correspondence(ctx):
         except ul.CaseInvalid:
             res.count("skipped:unit-string-not-parsed-as-intended")
             continue
+        if obs.get("exc") == "crash":
+            res.evaluations += 1
+            res.disagreements.append({"name": "the implementation raised {} where the model returns".format(obs["what"]),
+                                      "kind": "tree", "case": {"history": h, "tree": t, "frac": frac}})
+            continue
         if not obs["exact"]:
             res.count("skipped:inexact-float-exponent")
             continue
@@ -231,6 +236,11 @@ def correspondence(ctx):
             obs = ul.run_session(steps)
         except ul.CaseInvalid:
             res.count("skipped:unit-string-not-parsed-as-intended")
+            continue
+        if any(o.get("exc") == "crash" for o in obs):
+            res.evaluations += len(obs)
+            res.disagreements.append({"name": "the implementation raised {} where the model returns".format(
+                [o["what"] for o in obs if o.get("exc") == "crash"][0]), "kind": "session", "case": {"steps": steps}})
             continue
         if not all(o["exact"] for o in obs):
             res.count("skipped:inexact-float-exponent")
